@@ -39,7 +39,7 @@ def cases(tier, seed):
     for i in range(nf):
         shape = [int(rng.integers(2, 65)), int(rng.integers(2, 65))]
         org = [0.0, 0.0] if i % 3 else [float(rng.uniform(-5, 5)), float(rng.uniform(-5, 5))]
-        out.append({"id": "fftinv-r-%d" % i, "kind": "fftinv", "shape": shape, "layout": ["xy", "zxy", "zxy_illum"][i % 3],
+        out.append({"id": "fftinv-r-%d" % i, "kind": "fftinv", "shape": shape, "layout": ["xy", "zxy", "zxy_illum", "xyz"][i % 4],
                     "complex": bool(i % 2), "origin": org, "seed": [seed, "fr", i], "crop": bool(i % 3 == 0)})
     npz = 400 if tier == "quick" else 8000
     for i in range(npz):
@@ -145,8 +145,12 @@ def _image(case, rng, spacing=(0.1, 0.13), optics=True):
     if org[0] or org[1]:
         im = im.assign_coords(x=im.x.values + org[0], y=im.y.values + org[1])
         im.attrs = dict(im.attrs)
+    # fields beyond the four standard ones travel with the image too
+    im.attrs = dict(im.attrs, exposure_time=0.02, camera="cam3", frame=12)
     if case.get("layout") == "xy":
         im = im.isel(z=0, drop=True)
+    elif case.get("layout") == "xyz":
+        im = im.transpose("x", "y", "z")         # the order in which propagate() returns its result
     return im
 
 
@@ -181,8 +185,9 @@ def _run_fftinv(case):
         obs_origin = []
     flags.pop("origin_nonzero", None)
     # unshifted variant is an inverse pair too
-    b2 = ifft(fft(im, shift=False), shift=False) if im.ndim == 2 else None
-    if b2 is not None:
+    b2 = ifft(fft(im, shift=False), shift=False)
+    flags["dims_noshift"] = bool(b2.dims == im.dims and b2.shape == im.shape)
+    if flags["dims_noshift"]:
         resid["values_noshift"] = relmax(b2, im)
     flags["name"] = bool(b.name == im.name)
     from vf.monitors import digest
@@ -215,6 +220,7 @@ def _run_prop(case):
     kw_attr = {"attrs": dict(medium_index=nmed, illum_wavelen=lam), "args": {}, "mixed": dict(medium_index=nmed)}[oi]
     kw_arg = {"attrs": {}, "args": dict(medium_index=nmed, illum_wavelen=lam), "mixed": dict(illum_wavelen=lam)}[oi]
     im = data_grid(a, spacing=case["spacing"], illum_polarization=(0, 1), noise_sd=0.1, name="holo3", **kw_attr)
+    im.attrs = dict(im.attrs, exposure_time=0.02, camera="cam3", frame=12)
     if case["origin_shift"]:
         im = im.assign_coords(x=im.x.values + 3.25, y=im.y.values - 1.5)
     b = rng.normal(size=(nx, ny)) * _amp(case)
